@@ -53,7 +53,7 @@ impl<'a> FillSpecs<'a> {
     fn get_filler(&self) -> &'a str {
         self.filler.unwrap_or(if self.zero_pad { "0" } else { " " })
     }
-    fn get_alignment(&self) -> Alignment {
+    pub(crate) fn get_alignment(&self) -> Alignment {
         self.alignment.unwrap_or(if self.zero_pad {
             Alignment::RightWithSign
         } else {
